@@ -2,7 +2,7 @@
 import ast
 
 from ..core import AnalysisError, norm_stmt
-from ..rules import (Fn, guards, guard_dominates, names_in, strings_in, kwarg, is_none_test,
+from ..rules import (handler_types, Fn, guards, guard_dominates, names_in, strings_in, kwarg, is_none_test,
                      inventory, subscript_stores, always_raises, raised_types, if_chain, block_of)
 from ..cfg import target_names, root_name
 from .. import sym
@@ -300,6 +300,15 @@ def size_checks(cx):
     # sibling agreement of the three checks after renaming their size product
     nfs = [c for c in checks if c is not None]
     fn.ob('SIB', 'the three size checks are alike (each matched the same documented comparison)', len(nfs) == 3, fn.ast, key='size-sib')
+    # no way out of the function with a result but through a size check and its map
+    rets = [r for r in fn.walk(None, into_nested=False) if isinstance(r, ast.Return)]
+    for i, r in enumerate(rets):
+        passed = [fn.cfg.assume[id(g)][1] for g in nfs]
+        ok = len(nfs) == 3 and not fn.cfg.reaches_avoiding(fn.cfg.entry, fn.node(r), passed) \
+            and not fn.cfg.reaches_avoiding(fn.cfg.entry, fn.node(r), [fn.node(m) for m in maps])
+        fn.ob('GUARD', 'events are returned only after a size check passed and the bytes were mapped', ok, r,
+              detail='' if ok else '`%s` is reachable without passing a size check and a map' % norm_stmt(r), key='return-after-check|%d' % i)
+    cx.need(len(rets) >= 1, DATA + ': no return statement')
     return fn
 
 
@@ -536,3 +545,63 @@ def tokenizer(cx):
     ok = len(gs) == 1
     fn.ob('EXITS', 'a supplemental segment without a delimiter argument is refused', ok, gs[0] if gs else fn.ast, key='supp-delim')
     return fn, b
+
+
+def propagation(cx):
+    """PROPAGATE: an error met while reading HEADER, primary TEXT, supplemental TEXT or DATA leaves
+    FCSFile.__init__ (and FCSData.__new__) as an exception: none of these reads sits in a try body with
+    a handler.  Only the ANALYSIS reads are documented as tolerant (warning, empty dictionary)."""
+    fn = Fn(cx, INIT)
+    n = 0
+    for c in fn.calls(('read_fcs_header_segment', 'read_fcs_text_segment', 'read_fcs_data_segment')):
+        name = fn.callee(c).split('.')[-1]
+        begin = kwarg(c, 'begin')
+        analysis = name == 'read_fcs_text_segment' and begin is not None and 'analysis' in ast.unparse(begin).lower()
+        tries = [t for t in fn.ancestors(c) if isinstance(t, ast.Try) and t.handlers and fn.in_body_of(c, t, 'body')]
+        n += 1
+        if analysis:
+            ok = len(tries) == 1
+            fn.ob('PROPAGATE', 'an unreadable ANALYSIS segment is tolerated (warning), as documented', ok, c, key='analysis|%d' % n)
+        else:
+            fn.ob('PROPAGATE', 'an error of a %s read is not caught: the load fails' % name.replace('read_fcs_', '').replace('_', ' '),
+                  not tries, tries[0] if tries else c,
+                  detail='' if not tries else 'the read is inside a try whose handler catches %s and continues' % sorted(
+                      set().union(*[handler_types(h) if h.type is not None else {'everything'} for h in tries[0].handlers])),
+                  key='%s|%s' % (name, sym.show(sym.norm(begin)) if begin is not None else ''))
+    cx.floor('PROPAGATE', n, 6, 'segment reads in FCSFile.__init__')
+    fn2 = Fn(cx, 'io.FCSData.__new__')
+    for c in fn2.calls('FCSFile'):
+        tries = [t for t in fn2.ancestors(c) if isinstance(t, ast.Try) and t.handlers and fn2.in_body_of(c, t, 'body')]
+        fn2.ob('PROPAGATE', 'an error of the file reader is not caught by the sample constructor', not tries, c, key='ctor')
+    return fn
+
+
+ALLOCATORS = ('np.array', 'np.zeros', 'np.empty', 'np.ones', 'np.full', 'np.copy')
+
+
+def owned_events(cx):
+    """OWNED: the event matrix handed out by the reader is held in memory of its own: whatever reaches a
+    `return` of read_fcs_data_segment was produced by an allocating constructor (np.array of the map -
+    a copy -, np.zeros filled by stores), never the memory map itself or a view of it; every map is
+    read-only.  A load then cannot change when the file changes later, and two loads are independent."""
+    fn = Fn(cx, DATA)
+    rets = [r for r in fn.walk(None, into_nested=False) if isinstance(r, ast.Return)]
+    cx.need(rets, DATA + ': no return statement')
+    n = 0
+    for r in rets:
+        if not isinstance(r.value, ast.Name):
+            fn.ob('OWNED', 'the returned events are a named array built by an allocating constructor', False, r, key='ret-shape')
+            continue
+        for d, v in fn.reaching_values(r.value.id, r):
+            n += 1
+            ok = isinstance(v, ast.Call) and fn.callee(v) in ALLOCATORS and \
+                not any(k.arg == 'copy' for k in v.keywords) and not any(k.arg == 'subok' for k in v.keywords)
+            fn.ob('OWNED', 'the returned events were produced by an allocating constructor (a copy of the map, or a new array filled from it)', ok,
+                  d.ast if hasattr(d, 'ast') and d.ast is not None else r,
+                  detail='' if ok else 'the returned array may be `%s`: file-backed or shared' % (norm_stmt(v) if v is not None else 'not a plain assignment'),
+                  key='alloc|%d' % n)
+    for m in fn.calls('np.memmap'):
+        ok = sym.norm(kwarg(m, 'mode')) == ('const', 'r')
+        fn.ob('OWNED', 'the file is mapped read-only', ok, m, key='mode|%s' % sym.show(sym.norm(kwarg(m, 'dtype'))))
+    cx.floor('OWNED', n, 3, 'definitions of the returned event matrix')
+    return fn
